@@ -378,14 +378,39 @@ theorem NoObs.ofStat {w w' : World} {o : Nat} (h : NoObs w o) (hs : Stat w w') :
   obtain ⟨od, h1, h2, _⟩ := stat_guard hs hod
   rw [← h2]; exact h od h1
 
-/-- a signal of a guard without observers: one front step -/
-theorem Safe.guardSignal_leaf (h : Safe ex w) (fuel : Nat) (g : Nat) (hno : NoObs w g) : Safe ex (Sim.guardSignal (fuel + 1) w g) := by
-  rw [guardSignal_succ]
+theorem Safe.foldl {α : Type} {f : World → α → World} (hf : ∀ w a, Safe ex w → Safe ex (f w a)) :
+    ∀ (l : List α) {w : World}, Safe ex w → Safe ex (l.foldl f w) := by
+  intro l
+  induction l with
+  | nil => intro w h; exact h
+  | cons a l ih => intro w h; exact ih (hf w a h)
+
+theorem Safe.condSignal_fst (h : Safe ex w) (g : Nat) : Safe ex (Sim.condSignal w g).1 := by
+  unfold Sim.condSignal
+  split
+  · exact h
+  · dsimp only
+    split
+    · exact h
+    · exact Safe.foldl (fun w t h => h.guardRemove_fst _ _) _ (Safe.foldl (fun w t h => h.sched_now _ _ _ _) _ h)
+
+/-- what a signal does at the guard itself -/
+theorem Safe.ownStep (h : Safe ex w) (fwd : Bool) (g : Nat) (gd : Guard) (hg : w.guards[g]? = some gd) :
+    Safe ex (S3.ownStep fwd w g gd) := by
+  unfold S3.ownStep
+  split
+  · exact h.condSignal_fst g
+  · exact h.frontStep g gd hg
+
+/-- a signal (direct or forwarded) of a guard without observers: one step at the guard itself -/
+theorem Safe.guardSignalF_leaf (h : Safe ex w) (fwd : Bool) (fuel : Nat) (g : Nat) (hno : NoObs w g) :
+    Safe ex (Sim.guardSignalF fwd (fuel + 1) w g) := by
+  rw [guardSignalF_succ]
   split
   · exact h
   · rename_i gd hg
     rw [hno gd hg]
-    exact h.frontStep g gd hg
+    exact h.ownStep fwd g gd hg
 
 theorem Safe.guardSignal (h : Safe ex w) (fuel : Nat) (g : Nat) : Safe ex (Sim.guardSignal (fuel + 2) w g) := by
   rw [guardSignal_succ]
@@ -395,15 +420,15 @@ theorem Safe.guardSignal (h : Safe ex w) (fuel : Nat) (g : Nat) : Safe ex (Sim.g
     have hobs : ∀ o ∈ gd.observers, NoObs w o := fun o ho od hod => h.st.obs g gd hg o ho od hod
     have hs0 : Stat w (S3.frontStep w g gd) := (Stat.refl w).frontStep g gd
     have key : ∀ (os : List Nat) (w' : World), (∀ o ∈ os, NoObs w o) → Safe ex w' → Stat w w' →
-        Safe ex (os.foldl (fun w o => Sim.guardSignal (fuel + 1) w o) w') := by
+        Safe ex (os.foldl (fun w o => S3.fwdSignal (fuel + 1) w o) w') := by
       intro os
       induction os with
       | nil => intro w' _ h' _; exact h'
       | cons o os ih =>
         intro w' hos h' hs'
         simp only [List.foldl_cons]
-        refine ih _ (fun o' ho' => hos o' (List.mem_cons_of_mem _ ho')) ?_ (hs'.guardSignal _ _)
-        exact h'.guardSignal_leaf fuel o ((hos o List.mem_cons_self).ofStat hs')
+        refine ih _ (fun o' ho' => hos o' (List.mem_cons_of_mem _ ho')) ?_ (hs'.trans (Stat.guardSignalF' _ _ _ _))
+        exact h'.guardSignalF_leaf true fuel o ((hos o List.mem_cons_self).ofStat hs')
     exact key _ _ hobs (h.frontStep g gd hg) hs0
 
 theorem Safe.signal (h : Safe ex w) (g : Nat) : Safe ex (Sim.signal w g) := h.guardSignal 6 g
@@ -458,13 +483,6 @@ macro "safe" : tactic => `(tactic| repeat' safe_step)
 theorem Safe.guardWithdraw (h : Safe ex w) (g : Nat) (p : Pid) : Safe ex (Sim.guardWithdraw w g p) := by
   simp only [Sim.guardWithdraw]; safe
 macro_rules | `(tactic| safe_step) => `(tactic| with_reducible apply Safe.guardWithdraw)
-
-theorem Safe.foldl {α : Type} {f : World → α → World} (hf : ∀ w a, Safe ex w → Safe ex (f w a)) :
-    ∀ (l : List α) {w : World}, Safe ex w → Safe ex (l.foldl f w) := by
-  intro l
-  induction l with
-  | nil => intro w h; exact h
-  | cons a l ih => intro w h; exact ih (hf w a h)
 
 theorem Safe.cancelAwaiteds (h : Safe ex w) (p : Pid) : Safe ex (Sim.cancelAwaiteds w p) := by
   unfold Sim.cancelAwaiteds
